@@ -56,7 +56,7 @@ func (st *redialState) dialGen(g int) {
 		atomic.AddInt32(&st.calls[g], 1)
 		runtime.KeepAlive(s)
 		if g+1 < st.gens {
-			_ = c.Close() // releases the number ...
+			_ = c.Close()     // releases the number ...
 			st.dialGen(g + 1) // ... which the next generation's socket receives
 		}
 	}
